@@ -39,6 +39,9 @@ pub struct S01 {
     pub close: Close,
     /// additionally run the same history on all five word sizes (recording backend)
     pub all_words: bool,
+    /// scale scenario (a unary part of 2^32 bits over the sparse recording stub)
+    #[serde(default)]
+    pub giant: Option<crate::giant::Giant>,
 }
 
 fn mask(v: u64, n: usize) -> u64 {
@@ -397,6 +400,18 @@ impl Family for C01 {
     fn gen(rng: &mut Rng, _tier: Tier, index: u64) -> S01 {
         let e = if index % 2 == 0 { En::BE } else { En::LE };
         let word = Wd::ALL[((index / 2) % 5) as usize];
+        if crate::giant::is_giant_index(index) {
+            let g = crate::giant::unary_only(crate::giant::gen_giant(rng));
+            return S01 {
+                e,
+                word: g.wword,
+                backend: WrBackend::SparseRec,
+                ops: Vec::new(),
+                close: Close::Drop,
+                all_words: false,
+                giant: Some(g),
+            };
+        }
         let nops = match rng.below(4) {
             0 => rng.usize_range(1, 4),
             1 => rng.usize_range(1, 12),
@@ -445,10 +460,14 @@ impl Family for C01 {
             ops,
             close,
             all_words: rng.chance(1, 4),
+            giant: None,
         }
     }
 
     fn exec(s: &S01, ctx: &mut Ctx) {
+        if let Some(g) = &s.giant {
+            return crate::giant::giant_write("C01", s.e, g, ctx);
+        }
         run_one(s, s.word, &s.backend, ctx);
         if s.all_words && !ctx.failed() {
             for w in Wd::ALL {
@@ -464,6 +483,12 @@ impl Family for C01 {
 
     fn shrink(s: &S01) -> Vec<S01> {
         let mut out = Vec::new();
+        if let Some(g) = &s.giant {
+            for g2 in crate::giant::shrink_giant(g) {
+                out.push(S01 { giant: Some(g2), ..s.clone() });
+            }
+            return out;
+        }
         if s.all_words {
             out.push(S01 { all_words: false, ..s.clone() });
             // or: the failing word size alone
